@@ -113,4 +113,12 @@ def givenKeys (c : Cache) : List Op → List Key
   | [] => []
   | op :: ops => givenKey c op ++ givenKeys (c.step op).1 ops
 
+/-- state, the list of returned values and the destructor log of a history -/
+def runAll (c : Cache) : List Op → Cache × List (Option Nat) × List Ev
+  | [] => (c, [], [])
+  | op :: ops =>
+    let r := c.step op
+    let r' := runAll r.1 ops
+    (r'.1, r.2.1 :: r'.2.1, r.2.2 ++ r'.2.2)
+
 end AwsVerif.Lht
